@@ -80,6 +80,69 @@ def run_case(case):
     return d
 
 
+def _child(case, conn):
+    try:
+        conn.send(run_case(case))
+    except BaseException as ex:  # noqa
+        try:
+            conn.send(_empty_result(case, "worker crashed: " + repr(ex)))
+        except Exception:
+            pass
+    finally:
+        conn.close()
+
+
+def _empty_result(case, error=None, timed_out=False):
+    return dict(name=case["name"], error=error, paths=0, aborted=0, unsupported=[], queries=0, branch_queries=0,
+                solver_s=0.0, obligations=0, discharged=0, by_label={}, cex=[], unknown=[], samples=[], reach={},
+                validated=0, validation_mismatch=[], functions=[], wall_s=0.0, case=case, timed_out=timed_out)
+
+
+def _run_pool(cases, jobs, verbose, default_case_timeout):
+    """one forked process per case, at most `jobs` at a time, each under a hard wall-clock limit (z3 does not always
+    honour its own timeout inside nlsat); an overrunning case is killed and reported as inconclusive"""
+    ctxm = mp.get_context("fork")
+    pending = list(cases)
+    running = []  # (proc, conn, case, t0)
+    results = []
+    while pending or running:
+        while pending and len(running) < jobs:
+            case = pending.pop(0)
+            parent, child = ctxm.Pipe(duplex=False)
+            p = ctxm.Process(target=_child, args=(case, child), daemon=True)
+            p.start()
+            child.close()
+            running.append((p, parent, case, time.time()))
+        still = []
+        for p, conn, case, t0 in running:
+            limit = case.get("opts", {}).get("case_timeout_s", default_case_timeout)
+            r = None
+            if conn.poll(0.02):
+                try:
+                    r = conn.recv()
+                except EOFError:
+                    r = _empty_result(case, "worker died without a result")
+                p.join(5)
+            elif not p.is_alive():
+                r = _empty_result(case, f"worker exited with code {p.exitcode} without a result")
+            elif time.time() - t0 > limit:
+                p.kill()
+                p.join(5)
+                r = _empty_result(case, timed_out=True)
+                r["wall_s"] = time.time() - t0
+            if r is None:
+                still.append((p, conn, case, t0))
+                continue
+            conn.close()
+            results.append(r)
+            if verbose:
+                print(f"  [{r['name']}] paths={r['paths']} obl={r['obligations']}/{r['discharged']} "
+                      f"q={r['queries']} t={r['wall_s']:.1f}s cex={len(r['cex'])} unk={len(r['unknown'])}"
+                      + (" ERROR" if r.get("error") else "") + (" TIMED-OUT" if r.get("timed_out") else ""), flush=True)
+        running = still
+    return results
+
+
 def _evalobs(m, v):
     import numpy as np
     from symx import core
@@ -181,15 +244,7 @@ def main(argv=None):
     assert len(set(names)) == len(names), "duplicate case names"
     # longest first
     cases.sort(key=lambda c: -c.get("opts", {}).get("weight", 1))
-    ctxm = mp.get_context("fork")
-    with ctxm.Pool(min(a.jobs, max(1, len(cases))), maxtasksperchild=8) as pool:
-        results = []
-        for r in pool.imap_unordered(run_case, cases, chunksize=1):
-            results.append(r)
-            if a.v:
-                print(f"  [{r['name']}] paths={r['paths']} obl={r['obligations']}/{r['discharged']} "
-                      f"q={r['queries']} t={r['wall_s']:.1f}s cex={len(r['cex'])} unk={len(r['unknown'])}"
-                      + (" ERROR" if r.get("error") else ""), flush=True)
+    results = _run_pool(cases, a.jobs, a.v, default_case_timeout=float(os.environ.get("VERIF_CASE_TIMEOUT", "300" if a.tier == "quick" else "1800")))
     results.sort(key=lambda r: r["name"])
     known = load_known(pid)
     harness_errors, inconclusive, violations, known_hits = [], [], [], []
@@ -198,6 +253,9 @@ def main(argv=None):
     for r in results:
         cs = r["case"]
         opts = cs.get("opts", {})
+        if r.get("timed_out"):
+            inconclusive.append(f"{r['name']}: case exceeded its wall-clock limit and was stopped (no verdict)")
+            continue
         if r.get("error"):
             harness_errors.append(f"{r['name']}: {r['error'].strip().splitlines()[-1]}")
             if a.v:
